@@ -217,7 +217,7 @@ where
         s.merge(o)
     }
     fn edit(s: &Self::St, actor: Option<u8>, e: EditArgs, aux: &mut Aux) -> Option<(Self::Op, Sem, String)> {
-        let k = idx(e.a, KEYS) as u8;
+        let k = if aux.wide && e.e % 4 != 0 { 0 } else { idx(e.a, KEYS) as u8 };
         let absent = s.get(&k).val.is_none();
         let want_update = idx(e.kind, 100) < 74 || (absent && e.d % 4 != 0);
         let (op, call) = if want_update && actor.is_some() {
